@@ -8,7 +8,7 @@ use crate::refimpl::attrs::*;
 use crate::refimpl::crypto::hex;
 use serde_json::{json, Value};
 use stun_types::attribute::{Attribute, AttributeExt, AttributeType, AttributeWrite, AttributeWriteExt, RawAttribute};
-use stun_types::message::StunWriteError;
+use stun_types::message::{Message, MessageClass, MessageType, StunWriteError};
 
 const FILL: u8 = 0xA5;
 
@@ -199,6 +199,94 @@ pub fn check_raw(ctx: &mut Ctx, ty: u16, value: &[u8], all_short: bool) {
     ctx.count("writer:raw");
 }
 
+/// A raw attribute whose public `value` field was replaced after construction, so that the header
+/// it carries (no setter) describes another length than the value it holds.  Whatever such an
+/// attribute serialises to, every path serialises it to the same bytes: `to_bytes`, the in-place
+/// writer, `to_raw`, `From<&RawAttribute>`, clones and owned copies, and a builder that holds it by
+/// reference or by value (`build`, `write_into`, `into_owned`, `clone`, `byte_len`).
+pub fn check_edited_raw(ctx: &mut Ctx, ty: u16, old_len: usize, new: &[u8]) {
+    ctx.eval();
+    let w = || json!({"kind": "edited-raw", "raw_type": ty, "old_len": old_len, "value": hex(new)});
+    let old = vec![0x11u8; old_len];
+    let r = guard(|| {
+        let mut raw = RawAttribute::new(AttributeType::new(ty), &old);
+        raw.value = stun_types::data::Data::from(new);
+        let direct = raw.to_bytes();
+        let padded = raw.padded_len();
+        let mut paths: Vec<(&'static str, Vec<u8>)> = vec![];
+        for extra in [0usize, 5] {
+            let mut dest = vec![FILL; padded + extra];
+            let ret = raw.write_into(&mut dest);
+            let ok = ret.as_ref().ok() == Some(&padded) && dest[padded..].iter().all(|b| *b == FILL);
+            dest.truncate(padded);
+            paths.push((if extra == 0 { "write_into(exact)" } else { "write_into(+5)" }, if ok { dest } else { format!("{ret:?}").into_bytes() }));
+        }
+        paths.push(("to_raw().to_bytes()", raw.to_raw().to_bytes()));
+        {
+            let tr = raw.to_raw();
+            let mut dest = vec![FILL; tr.padded_len()];
+            let _ = tr.write_into(&mut dest);
+            paths.push(("to_raw().write_into", dest));
+        }
+        paths.push(("RawAttribute::from(&raw).to_bytes()", RawAttribute::from(&raw).to_bytes()));
+        paths.push(("clone().to_bytes()", raw.clone().to_bytes()));
+        paths.push(("clone().into_owned().to_bytes()", raw.clone().into_owned().to_bytes()));
+        paths.push(("into_owned().to_raw().to_bytes()", raw.clone().into_owned().to_raw().to_bytes()));
+        // builders: by reference and by value
+        let t = imp::tid_from_bytes(&[0x42; 12]);
+        let mt = MessageType::from_class_method(MessageClass::Request, 1);
+        let sw = RawAttribute::new(AttributeType::new(0x8022), b"edit");
+        let mut by_ref = Message::builder(mt, t);
+        let _ = by_ref.add_raw_attribute(sw.clone());
+        let added_ref = by_ref.add_attribute(&raw).is_ok();
+        let mut by_val = Message::builder(mt, t);
+        let _ = by_val.add_raw_attribute(sw.clone());
+        let added_val = by_val.add_raw_attribute(raw.clone()).is_ok();
+        let mut bpaths: Vec<(&'static str, Vec<u8>)> = vec![];
+        let built = by_ref.build();
+        for (name, b) in [("by-reference", &by_ref), ("by-value", &by_val)] {
+            let bl = b.byte_len();
+            let mut dest = vec![FILL; bl + 7];
+            let ret = b.write_into(&mut dest);
+            let ok = ret.as_ref().ok() == Some(&bl) && dest[bl..].iter().all(|x| *x == FILL);
+            dest.truncate(bl);
+            bpaths.push((if name == "by-reference" { "builder(by-reference).write_into" } else { "builder(by-value).write_into" }, if ok { dest } else { format!("{ret:?}").into_bytes() }));
+            bpaths.push((if name == "by-reference" { "builder(by-reference).clone().build()" } else { "builder(by-value).build()" }, b.clone().build()));
+            bpaths.push((if name == "by-reference" { "builder(by-reference).into_owned().build()" } else { "builder(by-value).into_owned().build()" }, b.clone().into_owned().build()));
+            let o = b.clone().into_owned();
+            let mut dest = vec![FILL; o.byte_len()];
+            let _ = o.write_into(&mut dest);
+            bpaths.push((if name == "by-reference" { "builder(by-reference).into_owned().write_into" } else { "builder(by-value).into_owned().write_into" }, dest));
+        }
+        (direct, paths, built, bpaths, added_ref && added_val)
+    });
+    match r {
+        Err(p) => ctx.violation("C12", "no-panic", "RawAttribute", "edited-raw-attribute", w, "bytes".into(), format!("panic: {} at {}", p.msg, p.loc)),
+        Ok((direct, paths, built, bpaths, added)) => {
+            for (how, b) in &paths {
+                if *b != direct {
+                    ctx.violation("C12", "alternative-path-equals-raw", "AttributeWrite", &format!("edited-raw-attribute,{how}"), w, format!("to_bytes() = {}", hex(&direct[..direct.len().min(48)])), format!("{how} = {}", hex(&b[..b.len().min(48)])));
+                    return;
+                }
+            }
+            if added {
+                for (how, b) in &bpaths {
+                    if *b != built {
+                        ctx.violation("C12", "builder-paths-equal", "MessageBuilder", &format!("edited-raw-attribute,{how}"), w, format!("build() = {}", hex(&built[..built.len().min(64)])), format!("{how} = {}", hex(&b[..b.len().min(64)])));
+                        return;
+                    }
+                }
+                // and the attribute sits in the message as it serialises on its own
+                if built.len() < 28 + direct.len() || built[28..28 + direct.len()] != direct[..] {
+                    ctx.violation("C12", "builder-paths-equal", "MessageBuilder::build", "edited-raw-attribute,attribute-bytes", w, hex(&direct[..direct.len().min(48)]), hex(&built[28.min(built.len())..built.len().min(76)]));
+                    return;
+                }
+            }
+            ctx.count("edited-raw-attributes");
+        }
+    }
+}
+
 /// builder paths: build, write_into exact/larger, into_owned, clone, short destinations
 pub fn check_builder_paths(ctx: &mut Ctx, p: &Program, all_short: bool) {
     ctx.eval();
@@ -373,6 +461,27 @@ pub fn run(ctx: &mut Ctx) {
     let quick = ctx.tier == Tier::Quick;
     let tid = [0x5cu8; 12];
     let mut idx = 0u64;
+    // ---- raw attributes edited through their public fields: header and value disagree ----
+    {
+        let mut rng = ctx.rng("edited-raw", 0);
+        for old_len in 0..=13usize {
+            for new_len in 0..=13usize {
+                idx += 1;
+                if !ctx.mine(idx) {
+                    continue;
+                }
+                let new: Vec<u8> = (0..new_len).map(|_| rng.byte()).collect();
+                check_edited_raw(ctx, if (old_len + new_len) % 2 == 0 { 0x7f01 } else { 0x8055 }, old_len, &new);
+            }
+        }
+        for _ in 0..ctx.n(160, 3_000) {
+            let ol = *rng.pick(&[0usize, 1, 3, 4, 100, 255, 256, 1000, 65_535]);
+            let nl = *rng.pick(&[0usize, 1, 2, 3, 4, 5, 99, 100, 101, 255, 256, 257, 999, 1000, 1001, 4000]);
+            let new: Vec<u8> = (0..nl).map(|_| rng.byte()).collect();
+            check_edited_raw(ctx, 0x4000 | rng.below(0x1000) as u16, ol, &new);
+        }
+        ctx.require("edited-raw-attributes", 150);
+    }
     // ---- builders whose attributes add up to more than the 16-bit length field can express: not a
     //      legal message, but every serialisation path still produces the same bytes ----
     for (j, sizes) in [vec![40_000usize, 30_001], vec![65_000, 65_000, 7], vec![60_000, 5_600], vec![700; 95]].into_iter().enumerate() {
@@ -508,6 +617,10 @@ pub fn replay(ctx: &mut Ctx, w: &Value) -> Result<(), String> {
         Some("program") => {
             let p = Program::from_json(w).ok_or("program")?;
             check_builder_paths(ctx, &p, true);
+        }
+        Some("edited-raw") => {
+            let v = crate::refimpl::crypto::unhex(w["value"].as_str().ok_or("value")?).ok_or("hex")?;
+            check_edited_raw(ctx, w["raw_type"].as_u64().ok_or("raw_type")? as u16, w["old_len"].as_u64().ok_or("old_len")? as usize, &v);
         }
         k => return Err(format!("unknown witness kind {k:?}")),
     }
